@@ -269,6 +269,10 @@ def run_case(case, res):
         n = len(U) - p - 1
         prm = al.params(U, p)
         P = al.generic_points(n)
+        # curves over numerically equal float / int knots are evaluated first (history across representations)
+        for rep in ("float", "int"):
+            lib.outcome(lambda: lib.mk_curve(U, P, None, rep)([lib.conv(u, rep) for u in prm]))
+            lib.outcome(lambda: lib.Function(lib.mk_kv(U, rep))[:, p]([lib.conv(u, rep) for u in prm]))
         f0 = lib.Function(lib.mk_kv(U))
         c0 = lib.mk_curve(U, P)
         base = {j: f0[:, j](prm) for j in range(p + 1)}
@@ -296,6 +300,8 @@ def run_case(case, res):
                 o = lib.outcome(c1, mapped)
                 if o[0] != "ok" or [lib.to_frac(x) for x in o[1]] != [lib.to_frac(x) for x in cbase]:
                     res.violation("invariance", f"U={U} s={s} a={a}: curve values differ after the affine map", op="curve")
+                elif not lib.all_exact(o[1]) or not lib.all_exact(cbase):
+                    res.violation("invariance", f"U={U} s={s} a={a}: inexact curve values for Fraction data", op="curve_type")
                 res.nontriv((U, s, a))
         return res.observe(sorted(res.outcomes.items()))
     raise KeyError(kind)
